@@ -25,10 +25,88 @@ TAMPER_OPS = {"mul", "div", "inv0", "is_zero", "is_equal", "is_equal_to_fixed", 
               "to_le_bytes", "lincomb", "from_le_bits", "range2", "lower_than_fixed", "bxor"}
 
 
+GS_OPS = [("mul", []), ("is_zero", []), ("is_equal", []), ("is_not_equal", []), ("inv0", []), ("inv", []), ("select", []), ("cond_swap", []),
+          ("and", [2]), ("xor", [2]), ("or", [3]), ("and", [3]), ("not", []), ("add_and_mul", [1, 2, 3, 4, 1]), ("add_and_mul", [0, 1, 0, 2, 3]),
+          ("is_equal_to_fixed", [3]), ("is_equal_to_fixed", [0]), ("div", []), ("lincomb", [1, 2, 1, 0]), ("lincomb", [4, 0, 3, 2]),
+          ("add", []), ("sub", []), ("neg", []), ("square", []), ("add_constant", [3]), ("mul_by_constant", [4])]
+GS_SLOW = [("sgn0", []), ("to_le_bits", [3, 1])]
+
+
+def gs_dom_size(op, params, nin, kinds, P):
+    """number of input tuples in the operation's domain over F_P (for the completeness count)"""
+    n = 1
+    for k in kinds:
+        n *= 2 if k == "b" else P
+    if op == "div":
+        return P * (P - 1)
+    if op == "inv":
+        return P - 1
+    return n
+
+
+def gadget_sat(rep, tier, wd):
+    """The full adversary on tiny fields: TLC searches every assignment of the real constraint system (GadgetSat.tla)."""
+    import re
+    from concurrent.futures import ThreadPoolExecutor
+    cases = []
+    for P in ((5,) if tier == "quick" else (5, 7)):
+        for op, params in GS_OPS + (GS_SLOW if tier == "thorough" else []):
+            cases.append({"op": op, "params": params, "p": P, "k": 6})
+    if tier == "quick":
+        cases += [{"op": op, "params": params, "p": 7, "k": 6} for op, params in [("mul", []), ("is_zero", []), ("select", []), ("xor", [2]), ("div", [])]]
+    sp = os.path.join(wd, "gs_scen.ndjson")
+    vlib.write_ndjson(sp, cases)
+    op_out = os.path.join(wd, "gs_cases.ndjson")
+    vlib.run_vh(["c04", "extract", sp, op_out])
+    extracted = vlib.read_ndjson(op_out)
+
+    def one(ic):
+        i, c = ic
+        if "error" in c:
+            return c, None, None
+        c = dict(c)
+        for k in ("instance", "cells"):
+            c.pop(k, None)
+        c["advice"] = [[] for _ in c["advice"]]
+        fp = os.path.join(wd, f"gs_case_{i}.json")
+        json.dump(c, open(fp, "w"))
+        r = vlib.run_tlc("GadgetSat.tla", f"GadgetSat_{c['p']}.cfg", "C04", env={"CASE": fp}, workers=2,
+                         timeout=600 if tier == "quick" else 7200)
+        return c, r, fp
+    results = []
+    with ThreadPoolExecutor(max_workers=8) as ex:
+        results = list(ex.map(one, list(enumerate(extracted))))
+    total_states = 0
+    summary = []
+    for c, r, fp in results:
+        name = f"{c['op']}{c.get('params')} over F_{c.get('p')}"
+        if r is None:
+            raise vlib.ToolError(f"GadgetSat: extraction failed for {name}: {c.get('error')}")
+        if r["violated"] == "Sound":
+            rep.violation({"phase": "gadgetsat", "op": c["op"], "p": c["p"]},
+                          f"GadgetSat: a satisfying assignment of the real constraint system of {name} exposes outputs that are not Def(inputs) "
+                          f"(or inputs outside the domain); TLC's counterexample is in the log of the run",
+                          {"scenario": {"gadgetsat": True, "op": c["op"], "params": c["params"], "p": c["p"], "k": 6}})
+            continue
+        vlib.require_tlc_ok(r, f"GadgetSat {name}")
+        sat_inputs = set(re.findall(r'SATISFYING (<<[^"]*>>)', r["out"]))
+        want = gs_dom_size(c["op"], c["params"], c["nin"], c["kinds"], c["p"])
+        if len(sat_inputs) != want:
+            rep.violation({"phase": "gadgetsat_complete", "op": c["op"], "p": c["p"]},
+                          f"GadgetSat: {name}: satisfying assignments exist for {len(sat_inputs)} input tuples, the domain has {want}",
+                          {"scenario": {"gadgetsat": True, "op": c["op"], "params": c["params"], "p": c["p"], "k": 6}})
+        total_states += r["distinct"]
+        summary.append({"op": c["op"], "params": c["params"], "p": c["p"], "states": r["distinct"], "satisfying_assignments": r["out"].count("SATISFYING"),
+                        "inputs_covered": len(sat_inputs)})
+    return total_states, summary
+
+
 def run(tier):
     rep = vlib.Report("C04", tier, "model_checking")
     wd = vlib.workdir("C04")
     rng = random.Random(vlib.seed())
+    gs_states, gs_summary = gadget_sat(rep, tier, wd)
+    log(f"[C04] GadgetSat: {len(gs_summary)} operation circuits searched exhaustively ({gs_states} states)")
     mc = vlib.run_tlc("NativeOps.tla", "MC_NativeOps.cfg", "C04", workers=8, timeout=900)
     if mc["violated"]:
         raise vlib.ToolError(f"NativeOps violates {mc['violated']} (model error)")
@@ -78,7 +156,8 @@ def run(tier):
         k = (e["op"], "tamper" if e.get("tamper") else "honest", e["status"])
         by[k] = by.get(k, 0) + 1
     rep.coverage.update({
-        "states": mc["distinct"], "transitions": mc["generated"],
+        "states": mc["distinct"] + gs_states, "transitions": mc["generated"] + gs_states,
+        "gadgetsat": gs_summary,
         "traces_validated_against_impl": len(good),
         "runs": len(ops), "honest_runs": sum(1 for e in ops if not e.get("tamper")),
         "tamper_runs": sum(1 for e in ops if e.get("tamper")),
@@ -97,6 +176,24 @@ def run(tier):
 def replay(path):
     d = json.load(open(path))
     wd = vlib.workdir("C04")
+    if d["replay"]["scenario"].get("gadgetsat"):
+        sc = d["replay"]["scenario"]
+        sp = os.path.join(wd, "gs_replay.ndjson")
+        vlib.write_ndjson(sp, [{"op": sc["op"], "params": sc["params"], "p": sc["p"], "k": 6}])
+        op_out = os.path.join(wd, "gs_replay_case.ndjson")
+        vlib.run_vh(["c04", "extract", sp, op_out])
+        c = vlib.read_ndjson(op_out)[0]
+        for k in ("instance", "cells"):
+            c.pop(k, None)
+        c["advice"] = [[] for _ in c["advice"]]
+        fp = os.path.join(wd, "gs_replay_case.json")
+        json.dump(c, open(fp, "w"))
+        r = vlib.run_tlc("GadgetSat.tla", f"GadgetSat_{sc['p']}.cfg", "C04", env={"CASE": fp}, workers=4, timeout=7200)
+        if r["violated"]:
+            log(f"VIOLATION property=C04 replay={path}")
+            return 1
+        log("replay: no violating assignment (violation not reproduced)")
+        return 0
     sp = os.path.join(wd, "replay_scen.ndjson")
     sc = {k: v for k, v in d["replay"]["scenario"].items() if v is not None}
     vlib.write_ndjson(sp, [sc])
